@@ -47,9 +47,11 @@ SRC_REC = (
     "{% if n.c %}{{ loop(n.c) }}{% endif %}{% else %}{{ rec('else') }}{% endfor %}{{ rec('end') }}"
 )
 
-ENV = Environment()
-AENV = Environment(enable_async=True)
-P0 = {"form": "list", "filter": False, "asyncm": False, "maxn": 3, "plain": False, "slot2": 0, "recursive": False}
+ENV = Environment(extensions=["jinja2.ext.loopcontrols"])
+AENV = Environment(enable_async=True, extensions=["jinja2.ext.loopcontrols"])
+SRC_CTL = ("{% for x in it %}{{ rec('x', x) }}{% if x > t %}{% break %}{% endif %}{% if x == t %}{% continue %}{% endif %}"
+           "{{ rec('p', loop.index) }}{% else %}{{ rec('else') }}{% endfor %}{{ rec('end') }}")
+P0 = {"form": "list", "filter": False, "asyncm": False, "maxn": 3, "plain": False, "slot2": 0, "recursive": False, "ctl": False}
 P = dict(P0)
 T = None
 
@@ -61,7 +63,9 @@ def setup(param):
     if param:
         P.update(param)
     env = AENV if P["asyncm"] else ENV
-    if P.get("recursive"):
+    if P.get("ctl"):
+        T = env.from_string(SRC_CTL)
+    elif P.get("recursive"):
         T = env.from_string(SRC_REC)
     else:
         src = SRC_PLAIN if P["plain"] else SRC_EXT
@@ -140,6 +144,27 @@ def MAXN():
     return P["maxn"]
 
 
+def ctl_ok(xs: List[int], t: int) -> bool:
+    """
+    pre: len(xs) <= MAXN()
+    post: _
+    """
+    rec = Rec()
+    _render(it=_iterable(xs), t=t, rec=rec)
+    log = []
+    for i, x in enumerate(xs):
+        log.append(("x", x))
+        if x > t:
+            break
+        if x == t:
+            continue
+        log.append(("p", i + 1))
+    if len(xs) == 0:
+        log.append(("else",))   # the else branch runs only when the loop did not iterate
+    log.append(("end",))
+    return rec.log == log
+
+
 class Node:
     def __init__(self, v, c):
         self.v = v
@@ -207,6 +232,11 @@ def conditions(tier, seed):
             out.append(Cond(f"plainloop[{'async' if asyncm else 'sync'},{form}]", "loop_ok", mode="A", param=p, timeout=to,
                             witnesses=[[[1, 9], 3, [0, 0]]],
                             bounds=f"non-extended loop with filter and else, <= {maxn+2} items"))
+        for form in ("list", "gen") + (("agen",) if asyncm else ()):
+            p = dict(form=form, asyncm=asyncm, ctl=True, maxn=maxn + 1)
+            out.append(Cond(f"break/continue with else[{'async' if asyncm else 'sync'},{form}]", "ctl_ok", mode="A", param=p, timeout=to,
+                            witnesses=[[[1, 5, 9], 5], [[], 0], [[7, 7], 3], [[2, 2], 2]],
+                            bounds=f"<= {maxn+1} int items, any threshold: break when x > t, continue when x == t; else only for an empty iterable"))
         for form in ("list", "gen"):
             p = dict(form=form, asyncm=asyncm, recursive=True)
             out.append(Cond(f"recursive[{'async' if asyncm else 'sync'},{form}]", "rec_ok", mode="A", param=p, timeout=to,
